@@ -40,3 +40,14 @@ Fixpoint ovf_sum (recs : list N) : N :=
   | [] => 0
   | r :: rest => (if is_ovf r then rec_tag r else 0) + ovf_sum rest
   end.
+
+(* physical meaning (specification, no machine arithmetic): T = unbounded number of timer overflows
+   so far; an event's true time is T * 2^25 + tag in units of the base resolution *)
+Fixpoint t2_true (T : N) (recs : list N) : N * list (N * N) :=
+  match recs with
+  | [] => (T, [])
+  | r :: rest =>
+      if is_ovf r then t2_true (T + rec_tag r) rest
+      else let '(T', e) := t2_true T rest in (T', (rec_type r, T * PERIOD + rec_tag r) :: e)
+  end.
+Definition wrap_ev (e : N * N) : N * N := (fst e, snd e mod W64).
